@@ -102,7 +102,7 @@ class C27(EngineACheck):
                 elif no_cache:
                     allowed.add("CSE")
                 else:
-                    allowed.add(e.get("cache_scope", "BACKEND"))
+                    allowed.add(str(e.get("cache_scope", "BACKEND")).replace("CacheScope.", ""))
             scope = str(r.cache_scope).replace("CacheScope.", "")
             if scope == "None":
                 scope = "BACKEND"
